@@ -130,6 +130,14 @@ CHECKS["C09"] = dict(
     design_ref="§2 C09",
 )
 
+CHECKS["C11"] = dict(
+    engine="sched",
+    technique="whole-runner simulation of the real ThreadRunner.run() under the controlled scheduler in virtual time with the stop request injected at every scheduling point of a reference run (fault-point enumeration), thorough: plus all single-deviation schedules around selected stop points",
+    text="8 workloads (two independent, parent-child, retrying, parent+group, mix, and three with bodies that take virtual time so that task threads are alive when the stop arrives) x {memory, SQLite} x {1, 2} slots: a reference run executes the workload to completion; then one run per scheduling point between the end of on_start and completion with stop_runner_loop() injected exactly there (2800 stop points in quick; SQLite every third point, thorough every point). Judged on a snapshot taken at the instant run() returns: every invocation the runner claimed is final, or available + ownerless + queued; nothing PENDING/RUNNING/KILLED under the runner id; run() returns before the 30 s virtual horizon (no recovery timeouts involved).",
+    note="Four recorded findings (known_findings.json): stop never completes while a task thread waits for a sub-invocation nobody runs. Real OS signals are not delivered (the injected call is what the handler calls); process-based runners are outside the thread-level scheduler.",
+    design_ref="§2 C11",
+)
+
 NOT_YET = "check not built yet in this session (planned, see DESIGN.md §2)"
 
 
